@@ -94,14 +94,21 @@ theorem writeBigInt_is_bits (v : Int) (n : Nat) (hn : 1 ≤ n) (hlo : -(2 : Int)
   writeBigInt_eq v n hn hlo hhi
 
 /-- `WriteUnary(n)` writes `n` ones and a zero (both the `< 63` fast path and the loop). -/
-theorem writeUnary_is_bits (n : Nat) (hn : n < 2 ^ 63) :
-    writeUnary n = writeBitArray (List.replicate n true ++ [false]) :=
-  writeUnary_eq n hn
+theorem writeUnary_is_bits (n : Nat) : writeUnary n = writeBitArray (List.replicate n true ++ [false]) :=
+  writeUnary_eq n
 
-/-- Limit (witness, replayed on Go: corpus/C06/defects.ops): `WriteUnary(n)` takes a `uint`; for `n ≥ 2^63` the loop
-bound `int(n)` is negative, no one is written, and the call succeeds after writing a single 0 — the encoding of 0. -/
-theorem writeUnary_huge_witness :
-    (writeUnary (2 ^ 63) (BitString.new 8)).1 = .ok () ∧ abs (writeUnary (2 ^ 63) (BitString.new 8)).2 = [false] := by
+/-- `WriteUnary(n)` for every `uint` n that does not fit — 2^63 and beyond included — is the overflow error after the ones
+that fit, with the previously written bits intact (repaired code: the loop counter is a `uint`). -/
+theorem writeUnary_overflow (n : Nat) (s : BitString) (hi : Inv s) (h : s.cap < s.len + (n + 1)) :
+    ∃ s', writeUnary n s = (.err errOverflow, s') ∧ (abs s').take s.len = abs s ∧ Inv s' ∧ s'.len ≤ s.cap := by
+  rw [writeUnary_eq]
+  exact write_overflow _ s hi (by simpa using h)
+
+/-- Witness of the old behaviour (replayed on Go: corpus/C06/defects.ops): before the repair the loop bound `int(n)` was
+negative for `n ≥ 2^63`, no one was written, and the call succeeded after writing a single 0 — the encoding of 0. -/
+theorem writeUnaryOld_witness :
+    (writeUnaryOld (2 ^ 63) (BitString.new 8)).1 = .ok () ∧
+    abs (writeUnaryOld (2 ^ 63) (BitString.new 8)).2 = [false] := by
   decide +kernel
 
 /-- `minBitsRequired_eq`: the de Bruijn multiplication and table lookup equals the bit length for every uint64. -/
